@@ -877,10 +877,29 @@ impl<'s> Rw<'s> {
                 // innermost check: no smaller statement span containing the closure — we rely on
                 // statements being visited outer-first and on skeleton matching to pick the right one.
                 let mut skel = String::new();
-                skel.push_str(&self.src.text[a..ca]);
-                skel.push_str("<CLOSURE>");
-                skel.push_str(&self.src.text[cb..b]);
+                let mut covered = vec![k];
+                if site.skeleton.matches("<CLOSURE>").count() > 1 {
+                    // several closures in one adapter chain: every outermost closure of the statement
+                    // is a hole of the skeleton (each is outlined by its own //@fn ...#closureN)
+                    let inside: Vec<(usize, (usize, usize))> = self.f.closure_spans.iter().map(|(k, r)| (*k, *r)).filter(|(_, (x, y))| *x >= a && *y <= b).collect();
+                    let mut outer: Vec<(usize, (usize, usize))> = inside.iter().filter(|(i, (x, y))| !inside.iter().any(|(j, (p, q))| j != i && p <= x && y <= q)).cloned().collect();
+                    outer.sort_by_key(|(_, (x, _))| *x);
+                    let mut at = a;
+                    covered.clear();
+                    for (i, (x, y)) in &outer {
+                        skel.push_str(&self.src.text[at..*x]);
+                        skel.push_str("<CLOSURE>");
+                        at = *y;
+                        covered.push(*i);
+                    }
+                    skel.push_str(&self.src.text[at..b]);
+                } else {
+                    skel.push_str(&self.src.text[a..ca]);
+                    skel.push_str("<CLOSURE>");
+                    skel.push_str(&self.src.text[cb..b]);
+                }
                 if squash(&skel) == squash(&site.skeleton) {
+                    let _ = &covered;
                     self.used_closures.insert(k);
                     let becomes = site.becomes.clone();
                     self.edit(a, b, &becomes, "R13", &format!("closure #{} site `{}` at {}", k, norm(&site.skeleton), self.loc(sp)));
@@ -890,6 +909,26 @@ impl<'s> Rw<'s> {
         }
         false
     }
+}
+
+/// split at commas that are not inside (), [], <> or {}
+fn split_top_commas(s: &str) -> Vec<String> {
+    let mut out = vec![];
+    let mut depth = 0i32;
+    let mut cur = String::new();
+    let cs: Vec<char> = s.chars().collect();
+    for (i, ch) in cs.iter().enumerate() {
+        match ch {
+            '(' | '[' | '{' | '<' => depth += 1,
+            ')' | ']' | '}' => depth -= 1,
+            '>' => { if i > 0 && cs[i - 1] != '-' && cs[i - 1] != '=' { depth -= 1 } }
+            ',' if depth == 0 => { out.push(cur.trim().to_string()); cur.clear(); continue; }
+            _ => {}
+        }
+        cur.push(*ch);
+    }
+    if !cur.trim().is_empty() { out.push(cur.trim().to_string()); }
+    out
 }
 
 // ---------------------------------------------------------------------------
@@ -913,7 +952,12 @@ fn apply_edits(src: &str, lo: usize, hi: usize, edits: &mut Vec<Edit>) -> R<Appl
     for e in edits.iter() {
         if e.start < pos {
             if e.end <= pos {
-                // nested in a previous replacement: ignore silently only when the outer edit is a deletion/replacement
+                // nested in a previous replacement: ignore silently only when the outer edit is a deletion/replacement;
+                // an ad-hoc //@replace that would be swallowed is a spec error (use `pre`), never silent
+                if e.note.starts_with("ad-hoc: ") && !kept.iter().any(|k| k.start == e.start && k.end == e.end && k.text == e.text) && kept.last().map(|k| k.rule != "ASSUMED").unwrap_or(true) {
+                    let by = kept.last().map(|k| format!("{} [{}..{}] `{}`", k.rule, k.start, k.end, k.note)).unwrap_or_default();
+                    refuse!("//@replace swallowed by an enclosing rewrite {} (rule {}: [{}..{}] {}); mark it `pre`", by, e.rule, e.start, e.end, e.note);
+                }
                 continue;
             }
             refuse!("overlapping edits at byte {} (rule {}: {})", e.start, e.rule, e.note);
@@ -1326,6 +1370,21 @@ fn emit_fn_inner(unit: &Unit, src: &SrcFile, f: &FnSpec, threaded: &BTreeSet<Str
                 refuse!("anchor lost: closure #{} of `{}` not found ({} closures)", k, fpath, closures.len());
             };
             let c: Clo = *c;
+            // R13: the outlined function's parameters are named by the spec (the contract refers to them);
+            // when the closure names a parameter differently, the body starts with `let <closure name> = <spec name>;`
+            let mut rebind = String::new();
+            if let (Clo::Closure(cc), Some(ps), true) = (c, f.params.as_ref(), f.bind) {
+                let spec_names: Vec<String> = split_top_commas(ps).iter().map(|p| p.split(':').next().unwrap_or("").trim().trim_start_matches("mut ").trim().to_string()).collect();
+                for (i, inp) in cc.inputs.iter().enumerate() {
+                    let pat = match inp { syn::Pat::Type(t) => &*t.pat, other => other };
+                    if let (syn::Pat::Ident(pi), Some(sn)) = (pat, spec_names.get(i)) {
+                        let cn = pi.ident.to_string();
+                        if !sn.is_empty() && &cn != sn {
+                            rebind.push_str(&format!("let {}{} = {};\n", if pi.mutability.is_some() { "mut " } else { "" }, cn, sn));
+                        }
+                    }
+                }
+            }
             let is_block;
             match clo_body(c) {
                 Body::Block(b) => {
@@ -1333,7 +1392,13 @@ fn emit_fn_inner(unit: &Unit, src: &SrcFile, f: &FnSpec, threaded: &BTreeSet<Str
                     lo = x;
                     hi = y;
                     let (_, bb) = br(b.brace_token.span.open());
-                    let pre = if f.pre.trim().is_empty() { String::new() } else { format!("\n{}\n", f.pre.trim_end()) };
+                    let mut pre = if f.pre.trim().is_empty() { String::new() } else { format!("\n{}\n", f.pre.trim_end()) };
+                    if vacuity() {
+                        pre.push_str(&new_probe(format!("{}: entry of the outlined closure ({})", f.path, src.rel)));
+                    }
+                    if !rebind.is_empty() {
+                        pre.push_str(&format!("\n{}", rebind));
+                    }
                     rw.edit(bb, bb, &pre, "INJ", "body prologue");
                     rw.visit_block(b);
                     is_block = true;
@@ -1364,7 +1429,12 @@ fn emit_fn_inner(unit: &Unit, src: &SrcFile, f: &FnSpec, threaded: &BTreeSet<Str
             let contract = if f.contract.trim().is_empty() { String::new() } else { format!("\n{}\n", f.contract.trim_end()) };
             let mut h = format!("fn {}({}){}{}", name, params, ret, contract);
             if !is_block {
-                let pre = if f.pre.trim().is_empty() { String::new() } else { format!("{}\n", f.pre.trim_end()) };
+                let mut pre = if f.pre.trim().is_empty() { String::new() } else { format!("{}\n", f.pre.trim_end()) };
+                if vacuity() {
+                    pre.push_str(&new_probe(format!("{}: entry of the outlined closure ({})", f.path, src.rel)));
+                    pre.push('\n');
+                }
+                pre.push_str(&rebind);
                 h.push_str(&format!("{{\n{}", pre));
             }
             header = h;
@@ -1561,6 +1631,14 @@ fn emit_item(unit: &Unit, src: &SrcFile, it: &ItemSpec) -> R<Emitted> {
         }
         syn::Item::Type(t) => rw.visit_type(&t.ty),
         syn::Item::Const(c) => {
+            // R18: the elided lifetime of a reference-typed `const` is `'static` by the language rule;
+            // inside verus! it has to be written
+            if let syn::Type::Reference(r) = &*c.ty {
+                if r.lifetime.is_none() {
+                    let (_, y) = br(r.and_token.span());
+                    rw.edit(y, y, "'static ", "R18", &format!("const {}: elided lifetime written as 'static", it.name));
+                }
+            }
             rw.visit_type(&c.ty);
             rw.visit_expr(&c.expr);
         }
@@ -1659,6 +1737,22 @@ fn run() -> R<()> {
 
     let push_raw = |text: &mut String, line_src: &mut Vec<Option<(String, usize)>>, s: &str| {
         for l in s.lines() {
+            // a hand-placed vacuity probe in spec text (e.g. at the end of a lemma that uses assumed axioms):
+            // `/*VAC-PROBE: label*/` becomes `assert(!vac_probe(N));` in vacuity mode and stays a comment otherwise
+            if vacuity() {
+                if let (Some(i), Some(j)) = (l.find("/*VAC-PROBE:"), l.find("*/")) {
+                    if j > i {
+                        let label = l[i + 12..j].trim().to_string();
+                        let pr = new_probe(format!("spec text: {}", label));
+                        text.push_str(&l[..i]);
+                        text.push_str(&pr);
+                        text.push_str(&l[j + 2..]);
+                        text.push('\n');
+                        line_src.push(None);
+                        continue;
+                    }
+                }
+            }
             text.push_str(l);
             text.push('\n');
             line_src.push(None);
